@@ -240,7 +240,7 @@ func (w *vfC09World) reader(m *MultiEpoch, h func(*fasthttp.RequestCtx), op vfC0
 	return nil
 }
 
-func (w *vfC09World) writer(m *MultiEpoch, op vfC09Op, classB bool, cache func() *Epoch) error {
+func (w *vfC09World) writer(m *MultiEpoch, op vfC09Op, classB bool, tick func()) error {
 	v := w.volatile[op.Arg%len(w.volatile)]
 	switch op.Kind {
 	case "add":
@@ -253,6 +253,9 @@ func (w *vfC09World) writer(m *MultiEpoch, op vfC09Op, classB bool, cache func()
 			m.AddEpoch(v.Num, w.objs[v.Num])
 			runtime.Gosched()
 			m.RemoveEpoch(v.Num)
+			if tick != nil {
+				tick() // each add/remove is an operation of its own for the stall detector
+			}
 		}
 	case "replace":
 		m.ReplaceEpoch(v.Num, w.objs[v.Num])
@@ -316,6 +319,7 @@ func vfC09eval(w0 *vfC09World, c *vfC09Case, st *vfC09Stats) error {
 						errCh <- err
 						return
 					}
+					progress.Add(1)
 				}
 				if err := w.reader(m, h, op, c.ClassB); err != nil {
 					errCh <- err
@@ -341,7 +345,7 @@ func vfC09eval(w0 *vfC09World, c *vfC09Case, st *vfC09Stats) error {
 			writersActive.Add(1)
 			defer writersActive.Add(-1)
 			for _, op := range ops {
-				if err := w.writer(m, op, c.ClassB, nil); err != nil {
+				if err := w.writer(m, op, c.ClassB, func() { progress.Add(1) }); err != nil {
 					errCh <- err
 					return
 				}
@@ -388,6 +392,17 @@ func vfC09eval(w0 *vfC09World, c *vfC09Case, st *vfC09Stats) error {
 				for _, g := range strings.Split(dump, "\n\n") {
 					if strings.Contains(g, "sync.(*RWMutex)") && len(keep) < 3 {
 						keep = append(keep, g)
+					}
+				}
+				// ... and the other goroutines of this program (whoever holds the lock is among them)
+				others := 0
+				for _, g := range strings.Split(dump, "\n\n") {
+					if !strings.Contains(g, "sync.(*RWMutex)") && (strings.Contains(g, "vfC09World).reader") || strings.Contains(g, "vfC09World).writer")) && others < 4 {
+						if len(g) > 1500 {
+							g = g[:1500]
+						}
+						keep = append(keep, "[not waiting for the epoch-set lock] "+g)
+						others++
 					}
 				}
 				return fmt.Errorf("deadlock: no operation completed for 12s, %d goroutines are parked in sync.RWMutex RLock/Lock of the epoch set:\n%s", waiters, strings.Join(keep, "\n\n"))
